@@ -34,6 +34,20 @@ func main() {
 	switch os.Args[1] {
 	case "check":
 		os.Exit(check(repo, verif, os.Args[2], os.Args[3]))
+	case "mutants":
+		// checker self-test only: obsa mutants <Cxx>
+		id := os.Args[2]
+		base, err := runObls(repo, id)
+		if err != nil || base.Status != "ok" {
+			fmt.Println("base run failed:", err, base)
+			os.Exit(2)
+		}
+		baseOpen := map[string]bool{}
+		for _, o := range base.Open {
+			baseOpen[o.Key] = true
+		}
+		r := selftest(repo, verif, id, baseOpen)
+		fmt.Printf("applied=%v caught=%v missed=%v skipped=%v errors=%v\n", r["applied"], r["caught"], r["missed"], r["skipped"], r["errors"])
 	case "obls":
 		os.Exit(obls(repo, os.Args[2]))
 	case "manifest":
